@@ -1,4 +1,5 @@
 import OW.Gen.Kernels
+import OW.Props.GenTieBase
 import OW.Kernels.Coeff
 import OW.Kernels.Muskingum
 import OW.Kernels.LumpedConstituent
@@ -58,8 +59,19 @@ Further forms (kernels outside the plain single-loop shape):
 * a function with an error result that works on whole series (`fn.Piecewise` in `ratingPartition`) is NOT translated: it
   is an argument of `step` (type `α → σ → σ → Option α`, `none` = error, on which the code panics), `step` returns an
   `Option` (`none` = the loop body panics) and the theorem instantiates the argument with the hand model of that function;
-* NOT translated, and said so in the generated file and in the evidence: the body of the `bankFullFlow <= 1e-8` branch of
-  `instreamFineSediment` (`abstractBranch`: only its condition is tied).
+* a delegating branch may first build a temporary series element-wise from series parameters (`NewArray1DFloat64`,
+  `CopyFrom`, `AddToFloat64Array`: the `bankFullFlow <= 1e-8` branch of `instreamFineSediment`): the callee then reads the
+  per-step expression (`lateralMass + reachLocalMass`) in place of that series (`gen_eq_InstreamFineSediment_lumped`).
+
+The stateful / slice-using kernels are tied in companion files (same namespace `OW.Props.GenTie`; `GenTieAll` imports all):
+`GenTieWhole` (lag, storageTrapAll, inputNode: translated as a whole, series as lists, the in-place index loops by induction
+on the loop bound), `GenTieStateful` (storageRouting: function literals of `calcOutflow`, panics as `none`, the abstract
+`fn.FindRoot` instantiated by the hand model), `GenTieGR4J` (slice buffers, inner loops, the unit-hydrograph construction;
+list lemmas in `OW/Proofs/GenLoops.lean`), `GenTieDates` (int arithmetic, the table `DAYS_IN_MONTH`, a loop that may panic),
+`GenTieStorage` (tables, function literals, the two sub-step loops with explicit fuel, statements after the loop),
+`GenTieSacramento` (by `rfl` against the copy `OW/Proofs/SacramentoMid.lean`, which is proved equal to the hand model).
+The vocabulary of those translations (`sliceGet`, `forRange`, `whileLoop`, …) is `OW/Gen/Prelude.lean`; the tactic `tie` and the
+literal identities `LitZero`, `NatZero` are in `GenTieBase.lean`.
 
 Literal identities. Over an abstract `Num α` differently spelled literals are different terms; where a hand model spells a Go
 constant differently from the (exactly folded, once rounded) constant of the source, the theorem carries the identity as a
@@ -71,25 +83,6 @@ ties hold at `Float` (where the models are executed) and are modulo that literal
 -/
 namespace OW.Props.GenTie
 open OW OW.Kernels OW.Gen.K
-
-/-- case analysis on every `if`, then definitional equality (extra rewrite rules for literal identities); cases in which the
-two sides took contradictory branches (conditions spelled differently) are closed by `simp_all` -/
-syntax "tie" (" [" Lean.Parser.Tactic.simpLemma,* "]")? : tactic
-macro_rules
-  | `(tactic| tie) => `(tactic| first
-      | rfl
-      | ((try dsimp only) <;> (repeat' (split <;> rename_i h <;> (try simp only [h, ↓reduceIte]))) <;>
-          (first | rfl | simp_all)))
-  | `(tactic| tie [$ls,*]) => `(tactic|
-      ((try dsimp only) <;> (repeat' (split <;> rename_i h <;> (try simp only [h, ↓reduceIte, $ls,*]))) <;>
-        (first | rfl | simp only [$ls,*] | simp_all)))
-
-/-- the float literal `0.0` is the zero a fresh array holds -/
-def LitZero (α : Type) [Num α] : Prop := (0.0 : α) = Num.zero
-/-- the integer literal `0` (converted to float64 by Go) and the float literal `0.0` are the same number -/
-def NatZero (α : Type) [Num α] : Prop := (0 : α) = 0.0
-
-theorem litZero_float : LitZero Float := rfl
 
 /-! ### models/rr/coeff.go -/
 
@@ -463,11 +456,10 @@ theorem gen_eq_InstreamFineSediment_inChannel {α} [Num α] (h1 : Lit1000 α) (h
   all_goals tie [h1, h2]
 
 /-- `instreamFineSediment`, main path (`bankFullFlow > 1e-8`): `pre` = `maxStorage`, `init` = `initStore`, one iteration =
-`stepMain`. The branch `bankFullFlow <= 1e-8` (it builds a temporary series and calls LumpedConstituentTransport) is NOT
-translated: only its condition is tied (`abstractBranch` = `lumped`). -/
+`stepMain`; the condition of the branch `bankFullFlow <= 1e-8` is `lumped` (its run: `gen_eq_InstreamFineSediment_lumped`). -/
 theorem gen_eq_InstreamFineSediment {α} [Num α] (h1 : Lit1000 α) (h2 : Lit86400 α) (p : InstreamFineSediment.Params α)
     (csf tsm up lat loc vol out : α) :
-    instreamFineSediment.abstractBranch csf tsm p.bankFullFlow p.fineSedSettVelocityFlood p.floodPlainArea p.linkWidth p.linkLength p.linkSlope p.bankHeight p.propBankHeightForFineDep p.sedBulkDensity p.manningsN p.fineSedSettVelocity p.fineSedReMobVelocity p.durationInSeconds = InstreamFineSediment.lumped p ∧
+    instreamFineSediment.delegates csf tsm p.bankFullFlow p.fineSedSettVelocityFlood p.floodPlainArea p.linkWidth p.linkLength p.linkSlope p.bankHeight p.propBankHeightForFineDep p.sedBulkDensity p.manningsN p.fineSedSettVelocity p.fineSedReMobVelocity p.durationInSeconds = InstreamFineSediment.lumped p ∧
     instreamFineSediment.pre csf tsm p.bankFullFlow p.fineSedSettVelocityFlood p.floodPlainArea p.linkWidth p.linkLength p.linkSlope p.bankHeight p.propBankHeightForFineDep p.sedBulkDensity p.manningsN p.fineSedSettVelocity p.fineSedReMobVelocity p.durationInSeconds = InstreamFineSediment.maxStorage p ∧
     instreamFineSediment.init csf tsm p.bankFullFlow p.fineSedSettVelocityFlood p.floodPlainArea p.linkWidth p.linkLength p.linkSlope p.bankHeight p.propBankHeightForFineDep p.sedBulkDensity p.manningsN p.fineSedSettVelocity p.fineSedReMobVelocity p.durationInSeconds = (InstreamFineSediment.initStore p csf, tsm) ∧
     instreamFineSediment.guard csf tsm p.bankFullFlow p.fineSedSettVelocityFlood p.floodPlainArea p.linkWidth p.linkLength p.linkSlope p.bankHeight p.propBankHeightForFineDep p.sedBulkDensity p.manningsN p.fineSedSettVelocity p.fineSedReMobVelocity p.durationInSeconds = false ∧
@@ -486,6 +478,25 @@ theorem gen_eq_InstreamFineSediment {α} [Num α] (h1 : Lit1000 α) (h2 : Lit864
   · unfold instreamFineSediment.step InstreamFineSediment.stepMain
     simp only [gen_eq_InstreamFineSediment_floodPlain, gen_eq_InstreamFineSediment_inChannel h1 h2]
     all_goals tie
+
+/-- `instreamFineSediment`, the branch `bankFullFlow <= 1e-8`: it builds the temporary series `lateralAndLocalMass`
+(`NewArray1DFloat64`, `CopyFrom(lateralMass)`, `AddToFloat64Array(…, reachLocalMass)`: at every step `lateralMass +
+reachLocalMass`) and hands the run to `LumpedConstituentTransport` with `x = 0`, `pointInput = 0.0` and a nil point-source
+output: one iteration is `InstreamFineSediment.stepLumped` (the four outputs the branch does not write keep `Num.zero`; the
+hand model of the lumped step writes the `0.0` of the flush branch as `Num.zero`: hypothesis `LitZero`). -/
+theorem gen_eq_InstreamFineSediment_lumped {α} [Num α] (hz : LitZero α) (p : InstreamFineSediment.Params α)
+    (csf tsm s up lat loc vol out : α) :
+    instreamFineSediment.delegateInit csf tsm p.bankFullFlow p.fineSedSettVelocityFlood p.floodPlainArea p.linkWidth p.linkLength p.linkSlope p.bankHeight p.propBankHeightForFineDep p.sedBulkDensity p.manningsN p.fineSedSettVelocity p.fineSedReMobVelocity p.durationInSeconds = tsm ∧
+    instreamFineSediment.delegateFinal csf tsm p.bankFullFlow p.fineSedSettVelocityFlood p.floodPlainArea p.linkWidth p.linkLength p.linkSlope p.bankHeight p.propBankHeightForFineDep p.sedBulkDensity p.manningsN p.fineSedSettVelocity p.fineSedReMobVelocity p.durationInSeconds s = (csf, s) ∧
+    instreamFineSediment.delegateStep csf tsm p.bankFullFlow p.fineSedSettVelocityFlood p.floodPlainArea p.linkWidth p.linkLength p.linkSlope p.bankHeight p.propBankHeightForFineDep p.sedBulkDensity p.manningsN p.fineSedSettVelocity p.fineSedReMobVelocity p.durationInSeconds s up lat loc vol out =
+      (let r := InstreamFineSediment.stepLumped p (csf, s) (up, lat, loc, vol, out)
+       (r.1.2, (r.2.loadDownstream, r.2.loadToFloodplain, r.2.loadToChannelDeposition, r.2.floodplainDepositionFraction,
+         r.2.channelDepositionFraction))) := by
+  refine ⟨rfl, rfl, ?_⟩
+  unfold LitZero at hz
+  unfold instreamFineSediment.delegateStep instreamFineSediment.delegate.step InstreamFineSediment.stepLumped LumpedConstituent.step
+  simp only [LumpedConstituent.minimumVolume]
+  tie [hz]
 
 /-! ### models/functions/baseflow.go, models/climate -/
 
